@@ -285,6 +285,7 @@ def monitor_case(ops, obs, which):
     for i in range(1, len(ops)):
         t = ops[i].split()
         if t and t[0] in ("wput", "wput_var"): t[0] = t[0][1:]     # the io::Write-flavoured wrappers: same contract
+        if t and t[0] == "iowrite": t[0] = "put_slice"             # `std::io::Write::write`: all of the slice or an error
         o = parse_obs(obs[i])
         r = o.get("r", "")
         if r in ("nocase", "nohandle", "na") or not t:
@@ -359,6 +360,8 @@ def monitor_case(ops, obs, which):
             if not fstate.get("remove") and o.get("fh") == "none":
                 V("C13", "file-removed-unasked", "close removed the file although it was not marked remove-on-drop", i)
                 V("C05", "file-removed-unasked", "close removed the file although remove_on_drop(false) was the last setting: nothing is left to reopen", i)
+                if fstate["mode"] in ("ro", "copy_ro"):
+                    V("C09", "file-removed-unasked", f"the close of a {fstate['mode']} session removed the file although remove_on_drop(false) was the last setting: a read-only arena never changes the file", i)
             if fstate["mode"] in ("ro", "copy_ro", "copy") and fstate["fh_open"] is not None and o.get("fh") != fstate["fh_open"] and not fstate.get("remove"):
                 V("C09" if fstate["mode"] != "copy" else "C05", "session-changes-file",
                   f"file hash changed during a {fstate['mode']} session: {fstate['fh_open']} -> {o.get('fh')}", i)
@@ -718,6 +721,8 @@ def monitor_case(ops, obs, which):
                     V("C14", "failed-put-changes-len", f"{ops[i].strip()} failed but len {blen} -> {nlen}", i)
                 if op in ("put", "put_slice", "putT", "put_aligned") and o.get("mem") != prev.get("mem"):
                     V("C14", "failed-put-writes", f"{ops[i].strip()} failed but memory changed", i)
+            elif r == "short":
+                V("C14", "short-write", f"{ops[i].strip()} (std::io::Write::write on a buffer with {bcap_ - blen} free bytes) stored {o.get('n')} bytes and reported success: a write that does not fit must fail with InsufficientBuffer and leave len ({blen} -> {nlen}) and every byte unchanged", i)
             elif r == "IncompleteBuffer":
                 if nlen != blen:
                     V("C14", "failed-get-changes-len", f"{ops[i].strip()} failed but len {blen} -> {nlen}", i)
